@@ -233,4 +233,27 @@ Section TestCA.
         | _ => ([d1], IErr)
         end
     end.
+
+  (** the asynchronous obtain: doWithRetry around Issue.  [outs] are the outcomes of the
+      successive orders (whichever CA they go to); attempt [k] consumes one or two of them.
+      Returns every directory ordered from, in order, and the final result ([IErr]: the input
+      is exhausted, still retrying). *)
+  Fixpoint obtain_async (fuel : nat) (ca testca : str) (k : Z) (outs : list order_outcome) : list str * issue_result :=
+    match fuel, outs with
+    | O, _ => ([], IErr)
+    | _, [] => ([], IErr)
+    | S f, _ =>
+        let (ds, r) := issue ca testca k outs in
+        match r with
+        | IErr => let (ds', r') := obtain_async f ca testca (k + 1) (skipn (length ds) outs) in (ds ++ ds', r')
+        | _ => (ds, r)
+        end
+    end.
 End TestCA.
+
+(** secureCAURL's scheme rule (acmeclient.go): "https://" is assumed when the URL contains no
+    "://"; the two literals are parameters (translated from the source) *)
+Fixpoint contains (p s : str) : bool :=
+  has_prefix p s || match s with [] => false | _ :: r => contains p r end.
+Definition norm_url (sep prefix : str) (ca : str) : str :=
+  if contains sep ca then ca else prefix ++ ca.
